@@ -22,6 +22,10 @@ def c12_jobs(rng, quick):
             md = rng.choice([1, 2, 4])
             n = max(0, C01.cap(v, level, md) - rng.randint(0, 3))
             add("qr", C01.filler(rng, md, n, 1), (level, {1: 1, 2: 2, 4: 3}[md]))
+    # many small symbols per level: every (level, mask) format word should occur (the mask depends on the content)
+    for level in range(4):
+        for _ in range(120 if quick else 400):
+            add("qr", C01.filler(rng, rng.choice([1, 2, 4]), rng.randint(1, 14), 1), (level, 0))
     for lv in range(9):
         for n in ([2, 40, 300, 900] if quick else [0, 2, 10, 40, 100, 300, 600, 900, 1200, 1500, 1700, 1800]):
             add("pdf", "".join(rng.choice("abcdefgh XYZ") for _ in range(n)), (lv,))
@@ -64,6 +68,7 @@ def run(tier):
     chk.cov["by_family"] = {s: sum(1 for e in ok if e["sym"] == s) for s in ("qr", "pdf", "aztec", "dm")}
     qr_seen = {(t[0], t[1]) for x in extras.get("TraceQR", []) for t in x.get("seen", [])}
     chk.cov["qr_version_level_pairs"] = len(qr_seen)
+    chk.cov["qr_level_mask_pairs"] = len({(t[1], t[2]) for x in extras.get("TraceQR", []) for t in x.get("seen", [])})
     chk.cov["pdf_levels"] = sorted({t[2] for x in extras.get("TracePDF", []) for t in x.get("seen", [])})
     chk.cov["aztec_sizes"] = len({(t[0], t[1]) for x in extras.get("TraceAztec", []) for t in x.get("seen", [])})
     ex = next(e for e in ok if e["sym"] == "pdf")
